@@ -366,6 +366,62 @@ fn run_verify(cx: &mut CaseCx, _case: &Value) {
   cx.sample(json!({"public_keys": pks.iter().map(|p| p.0.clone()).collect::<Vec<_>>(), "points": points.len(), "proofs": 3}));
 }
 
+
+/// the JSON forms a client receives from the randomness server (Evaluation = output point + proof)
+fn run_json(cx: &mut CaseCx, _case: &Value) {
+  use base64::prelude::{BASE64_STANDARD_NO_PAD, BASE64_URL_SAFE};
+  cx.entropy(4);
+  let server = pp::Server::new(vec![1]).expect("server");
+  let (blinded, _) = pp::Client::blind(b"x");
+  let ev = server.eval(&blinded, 1, true).expect("eval");
+  let good: Value = serde_json::to_value(&ev).expect("json");
+  let out = *ev.output.as_bytes();
+  let mut outputs: Vec<String> = vec!["".into(), "!".into(), "====".into(), "A".into(), "AA".into(), "AAA".into(), "é".into()];
+  for n in 0..=48usize {
+    let bytes: Vec<u8> = (0..n).map(|i| out[i % 32]).collect();
+    outputs.push(BASE64_STANDARD.encode(&bytes));
+    outputs.push(BASE64_STANDARD_NO_PAD.encode(&bytes));
+    outputs.push(BASE64_URL_SAFE.encode(&bytes));
+  }
+  let std32 = BASE64_STANDARD.encode(out);
+  for k in 0..std32.len() {
+    outputs.push(std32[..k].to_string());
+    let mut x = std32.clone().into_bytes();
+    x[k] = b'*';
+    outputs.push(String::from_utf8(x).unwrap());
+  }
+  let mut docs: Vec<String> = vec![];
+  for o in &outputs {
+    let mut v = good.clone();
+    v["output"] = Value::String(o.clone());
+    docs.push(v.to_string());
+  }
+  // structural damage: every prefix of the valid document, wrong types, missing fields
+  let gs = good.to_string();
+  for k in 0..gs.len() {
+    if gs.is_char_boundary(k) {
+      docs.push(gs[..k].to_string());
+    }
+  }
+  for d in ["{}", "[]", "null", "{\"output\":1,\"proof\":null}", "{\"output\":null}", "{\"output\":[1,2,3],\"proof\":null}", "{\"proof\":null}", "{\"output\":\"\",\"proof\":{\"c\":[],\"s\":[]}}"] {
+    docs.push(d.to_string());
+  }
+  for js in docs {
+    cx.eval();
+    cx.nontrivial(fnv_str(&js));
+    match guard(|| serde_json::from_str::<pp::Evaluation>(&js).map(|e| e.proof.is_some())) {
+      Err(p) => cx.viol("C09/panic/Evaluation-json", format!("restoring an Evaluation from JSON panicked: {}", p.chars().take(160).collect::<String>()), json!({"entry": "serde_json::from_str::<Evaluation>", "input": js.chars().take(200).collect::<String>()})),
+      Ok(Ok(_)) => cx.count("json_loaded", 1),
+      Ok(Err(_)) => cx.count("json_rejected", 1),
+    }
+    cx.eval();
+    if let Err(p) = guard(|| serde_json::from_str::<pp::Point>(&js).map(|_| ())) {
+      cx.viol("C09/panic/Point-json", format!("restoring a Point from JSON panicked: {}", p.chars().take(160).collect::<String>()), json!({"entry": "serde_json::from_str::<Point>", "input": js.chars().take(200).collect::<String>()}));
+    }
+  }
+  cx.outcome("json forms");
+}
+
 fn run_bincode(cx: &mut CaseCx, _case: &Value) {
   cx.entropy(3);
   let server = pp::Server::new((0u8..8).collect()).expect("server");
@@ -436,7 +492,7 @@ pub fn spec() -> PropSpec {
     id: "C09",
     level: "fault_enumeration",
     assumptions: vec![
-      "entry points are exactly the property's list; every call is wrapped in catch_unwind; malformed input must surface as None / Err / false",
+      "entry points are the property's list, read inclusively for 'decoders for ... proofs': the serde JSON forms of Evaluation (output point + proof) and Point that a client receives are decoders of data from another party as well; every call is wrapped in catch_unwind; malformed input must surface as None / Err / false",
       "aborts (allocation failure, stack overflow) would terminate the checker with a signal exit (reported as machinery failure, exit >= 128): none of the entry points sizes an allocation from an unchecked length field, so no child-process sandbox is used",
       "not in the property's list and therefore not asserted: Client::unblind, Point::from(&[u8]) with a non-32-byte slice, GGM::eval with a short output buffer, retrieve_outputs",
     ],
@@ -491,6 +547,13 @@ pub fn spec() -> PropSpec {
         gen: |_| vec![json!({})],
         run: run_verify,
         min_counts: &[("verify_true", 1), ("verify_false", 1000), ("public_key_variants", 5)],
+      },
+      Check {
+        name: "json-forms",
+        rule: "the JSON form of an Evaluation as a client receives it (output point + proof): output field = base64 (padded / unpadded / url-safe) of 0..48 bytes, every character-prefix and every single-character corruption of the valid string, every prefix of the whole document, wrong types and missing fields; also parsed as a bare Point: no panic",
+        gen: |_| vec![json!({})],
+        run: run_json,
+        min_counts: &[("json_rejected", 200), ("json_loaded", 1)],
       },
       Check {
         name: "bincode-loaders",
